@@ -192,6 +192,32 @@ func ZZ_C02_MsgAccess() {
 	case 6:
 		c := m.Clone()
 		zzverif.Assert(c.Len() == m.Len() || c.Len() == 0, "clone-len")
+		c2 := m.CloneTo(make([]byte, 3))
+		zzverif.Assert(c2.Len() == c.Len(), "cloneto-len")
+	case 7: // the error-returning accessors
+		_, _ = m.BoolErr(tag)
+		_, _ = m.ByteErr(tag)
+		_, _ = m.Int16Err(tag)
+		_, _ = m.Int32Err(tag)
+		_, _ = m.Int64Err(tag)
+		_, _ = m.Uint16Err(tag)
+		_, _ = m.Uint32Err(tag)
+		_, _ = m.Uint64Err(tag)
+	case 8:
+		_, _ = m.Float32Err(tag)
+		_, _ = m.Float64Err(tag)
+		_, _ = m.Bin64Err(tag)
+		_, _ = m.Bin128Err(tag)
+		_, _ = m.Bin256Err(tag)
+	case 9:
+		p, err := m.BytesErr(tag)
+		zzverif.Assert(err != nil || zzverif.Within(p, b), "msg-byteserr-inside-input")
+		sv, err := m.StringErr(tag)
+		zzverif.Assert(err != nil || zzverif.WithinStr(string(sv), b), "msg-stringerr-inside-input")
+		l, err := m.ListErr(tag)
+		zzverif.Assert(err != nil || zzverif.Within(l.Raw(), b), "msg-listerr-inside-input")
+		mm, err := m.MessageErr(tag)
+		zzverif.Assert(err != nil || zzverif.Within(mm.Raw(), b), "msg-messageerr-inside-input")
 	default:
 		zzverif.Unsupported("bad A")
 	}
